@@ -2,6 +2,8 @@
 package main
 
 import (
+	"encoding/hex"
+	"unicode/utf8"
 	"context"
 	"encoding/json"
 	"fmt"
@@ -47,6 +49,10 @@ func describe(v interface{}, root interface{}) interface{} {
 		}
 		return map[string]interface{}{"k": "list", "items": items}
 	case string:
+		if !utf8.ValidString(x) {
+			// JSON cannot carry invalid UTF-8: the exact bytes travel in hex
+			return map[string]interface{}{"k": "str", "v": x, "hex": hex.EncodeToString([]byte(x))}
+		}
 		return map[string]interface{}{"k": "str", "v": x}
 	case bool:
 		return map[string]interface{}{"k": "bool", "v": x}
@@ -58,7 +64,7 @@ func describe(v interface{}, root interface{}) interface{} {
 	case reflect.Int, reflect.Int8, reflect.Int16, reflect.Int32, reflect.Int64, reflect.Uint, reflect.Uint8, reflect.Uint16, reflect.Uint32, reflect.Uint64:
 		return map[string]interface{}{"k": "num", "t": rv.Kind().String(), "v": fmt.Sprintf("%d", v)}
 	case reflect.Float32, reflect.Float64:
-		return map[string]interface{}{"k": "num", "t": rv.Kind().String(), "v": fmt.Sprint(v)}
+		return map[string]interface{}{"k": "num", "t": rv.Kind().String(), "v": strconv.FormatFloat(rv.Float(), 'f', -1, 64)}
 	case reflect.Ptr:
 		if rv.Type().Elem().Name() == "T" && !rv.IsNil() {
 			// a T of another fixture package: same shape
@@ -298,6 +304,8 @@ func main() {
 			case "param":
 				emit(c.GetParam(o.Name))
 			case "newctx":
+				// a NEW context under this id: the previous one (and its instances) is forgotten
+				delete(ctxs, o.Ctx)
 				ctxOf(o.Ctx)
 				emit(nil, nil)
 			case "override_param":
